@@ -365,7 +365,6 @@ func prebuildPortable(thorough bool, p2, sis bool) {
 
 func specP2(c *mon.Ctx, pi *p2Inst) {
 	P := pi.pkg
-	r := gen.New(c.Seed, "c14/spec/"+P)
 	// parameters
 	c.Class(P + "/params")
 	g := gcdInt(pi.d, pi.q)
@@ -401,8 +400,13 @@ func specP2(c *mon.Ctx, pi *p2Inst) {
 		return fmt.Sprintf("String()=%q want %q", pi.paramString(pi.defT, pi.defRF, pi.defRP), pi.seedString(pi.defT, pi.defRF, pi.defRP))
 	})
 
-	for _, ps := range pi.paramSets(c.Thorough()) {
-		ps := ps
+}
+
+// specP2Param checks one parameter set of one package (its own task).
+func specP2Param(c *mon.Ctx, pi *p2Inst, ps p2Param) {
+	P := pi.pkg
+	r := gen.New(c.Seed, "c14/spec/"+P+"/"+ps.String())
+	for once := true; once; once = false {
 		sp := pi.spec(ps.t, ps.rf, ps.rp, ps.seed)
 		cls := ps.String()
 		// round keys
@@ -431,7 +435,7 @@ func specP2(c *mon.Ctx, pi *p2Inst) {
 		} else if c.Guard(P+"/NewPermutation/panic/"+cls, func() string { return cls }, func() { h = pi.newPerm(ps.t, ps.rf, ps.rp, ps.seed) }) {
 			continue
 		}
-		ins := stateInputs(r, pi.q, ps.t, c.Pick(12, 60))
+		ins := stateInputs(r, pi.q, ps.t, c.Pick(12, 250))
 		for k, in := range ins {
 			in := in
 			fenced := k%2 == 0
